@@ -108,7 +108,7 @@ theorem isHex_plain_ends {h : Bytes} {n : Nat} (hh : IsHex h n) :
       · simp [h]
       · simp [h]
 
-theorem extract_hex (h rest : Bytes) (n : Nat) (hh : IsHex h n) (hn : n ≤ chunkBound) :
+theorem extract_hex (h rest : Bytes) (n : Nat) (hh : IsHex h n) (hn : n ≤ 5368709120) :
     ChunkUnsigned.extractChunkSize (h ++ crlf ++ rest) = some ((n : Int), rest) := by
   have e : h ++ crlf ++ rest = (h ++ [13]) ++ 10 :: rest := by simp [crlf]
   have h10 : (10 : UInt8) ∉ h ++ [13] := by
@@ -118,7 +118,10 @@ theorem extract_hex (h rest : Bytes) (n : Nat) (hh : IsHex h n) (hn : n ≤ chun
   unfold ChunkUnsigned.extractChunkSize
   rw [e, readLine_append _ _ h10]
   have : h ++ [13] ++ [10] = h ++ [13, 10] := by simp
-  simp only [this, (trimSpace_gen h t u c e' hs hr hc he).2, parseIntHex64_of_isHex hh hn]
+  have hn' : n ≤ chunkBound := by unfold chunkBound; omega
+  have hb : ¬ (((n : Nat) : Int) < 0 ∨ ((n : Nat) : Int) > ChunkUnsigned.maxUnsignedChunkSize) := by
+    unfold ChunkUnsigned.maxUnsignedChunkSize; omega
+  simp only [this, (trimSpace_gen h t u c e' hs hr hc he).2, parseIntHex64_of_isHex hh hn', hb, if_false]
 
 theorem b64_plain : ∀ c : UInt8, (isB64 c = true ∨ c = 61) → Plain c := by
   intro c hc
@@ -173,7 +176,7 @@ def Inv (P : Params) (hz : Bytes) (st : ChunkUnsigned.State) (accp : Bytes) (cs 
   st.input = renderUnsigned P accp cs hz ∧ st.hashAcc = accp
 
 def ChunksOK (cs : List Chunk) : Prop :=
-  ∀ c ∈ cs, IsHex c.1 c.2.length ∧ c.2 ≠ [] ∧ c.2.length ≤ 281474976710656
+  ∀ c ∈ cs, IsHex c.1 c.2.length ∧ c.2 ≠ [] ∧ c.2.length ≤ 5368709120
 
 theorem payloadOf_cons (h d : Bytes) (cs : List Chunk) : payloadOf ((h, d) :: cs) = d ++ payloadOf cs := by
   simp [payloadOf]
@@ -198,7 +201,7 @@ theorem loop_spec (P : Params) (H : UnsignedHyps P) (hz : Bytes) (hhz : IsHex hz
     have hin' : st.input = hz ++ crlf ++ (P.trailerName ++ [58] ++ checksumB64 P accp ++ crlf ++ crlf) := by
       simp [hin, renderUnsigned]
     have hx := extract_hex hz (P.trailerName ++ [58] ++ checksumB64 P accp ++ crlf ++ crlf) 0 hhz
-      (by unfold chunkBound; omega)
+      (by omega)
     rw [← hin'] at hx
     have ht := readTrailer_ok P H { st with input := P.trailerName ++ [58] ++ checksumB64 P accp ++ crlf ++ crlf }
       accp rfl hh
@@ -219,19 +222,17 @@ theorem loop_spec (P : Params) (H : UnsignedHyps P) (hz : Bytes) (hhz : IsHex hz
     have hdpos : 0 < d.length := List.length_pos_iff.2 hdne
     let R := renderUnsigned P (accp ++ d) cs hz
     have hin' : st.input = h ++ crlf ++ (d ++ crlf ++ R) := by simp [hin, renderUnsigned, R]
-    have hx := extract_hex h (d ++ crlf ++ R) d.length hhd (by unfold chunkBound; omega)
+    have hx := extract_hex h (d ++ crlf ++ R) d.length hhd (by omega)
     rw [← hin'] at hx
     rw [ChunkUnsigned.loop]
     simp only [hx]
     have h0 : ¬ (((d.length : Nat) : Int) == 0) = true := by simp; omega
-    have h1 : ¬ (((d.length : Nat) : Int) < 0 ∨ ((d.length : Nat) : Int) > ChunkUnsigned.maxAlloc) := by
-      unfold ChunkUnsigned.maxAlloc; omega
     have h2 : ¬ ((d ++ crlf ++ R).length < ((d.length : Nat) : Int).toNat) := by simp
     have htake : (d ++ crlf ++ R).take ((d.length : Nat) : Int).toNat = d := by simp
     have hdrop : (d ++ crlf ++ R).drop ((d.length : Nat) : Int).toNat = crlf ++ R := by simp
     have hskip : ChunkUnsigned.skipBytes [13, 10] (crlf ++ R) = .ok R := by
       simp [ChunkUnsigned.skipBytes, crlf, readAndSkip]
-    simp only [h0, h1, h2, htake, hdrop, hskip, if_false]
+    simp only [h0, h2, htake, hdrop, hskip, if_false]
     by_cases hfit : min (cap - acc.length) d.length < d.length
     · -- the chunk does not fit: fill the buffer, stash the rest
       right
